@@ -87,8 +87,8 @@ class Prop:
               "D70 (found here). Known finding D47 (top node of a typed copy made through add_child gets the default kind; pinned by the suite) "
               "is modelled, excluded explicitly in the theorems, expected exactly by the oracle and reported as KNOWN-FINDING. Metadata is not "
               "copied by the library (a copy starts without). copy_to(add_self=False) is only called with before=None (the library asserts it; "
-              "the model ignores `before` there). The oracle checks the block position for before in {None, False, True, 0, node}; for other "
-              "indexes contiguity + source order, the exact index rests on the correspondence."),
+              "the model ignores `before` there). The oracle checks the block position for every `before` form "
+              "(None/False: appended, True/0: first, node: directly in front, index: where list.insert() resolves it against the old list)."),
         technique="Coq proof about an executable Gallina model + differential correspondence check (vm_compute) + Python oracle",
         design_ref="DESIGN.md section 6 (C07), 3.2, 3.4",
     )
